@@ -260,6 +260,36 @@ pub fn run(ctx: &mut Ctx) {
                         Err(e) => ctx.violation(case, "observe-failed", json!({"err": format!("{e:?}")})),
                     }
                 }
+                _ if !present[t] => {
+                    // operations that arrive late for a removed document (a sync that was still
+                    // running registers its peer, a client sets a policy): they must be refused and
+                    // must not bring anything of the document back
+                    let r1 = store.register_useful_peer(ids[t], rng.fill32());
+                    let r2 = store.set_download_policy(&ids[t], DownloadPolicy::NothingExcept(vec![FilterKind::Exact(rng.bytes(1).into())]));
+                    let r3 = store.open_replica(&ids[t]).map(|_| ());
+                    store.close_replica(ids[t]);
+                    trace.push(format!("late operations on removed doc{t}: register peer -> {}, set policy -> {}, open -> {}", r1.is_ok(), r2.is_ok(), r3.is_ok()));
+                    ctx.count("late_operations_on_removed_document", 1);
+                    if r1.is_ok() || r2.is_ok() || r3.is_ok() {
+                        ctx.violation(case, "operation-on-removed-document-accepted", json!({"doc": t, "register_peer": r1.is_ok(), "set_policy": r2.is_ok(), "open": r3.is_ok(), "trace": trace}));
+                        return;
+                    }
+                    match observe(&mut store, ids[t]) {
+                        Ok(o) => {
+                            let mut left = vec![];
+                            if !o.entries.is_empty() { left.push("entries"); }
+                            if !o.heads.is_empty() { left.push("heads"); }
+                            if o.peers.is_some() { left.push("peers"); }
+                            if o.policy != format!("{:?}", DownloadPolicy::default()) { left.push("policy"); }
+                            if o.kind.is_some() { left.push("capability"); }
+                            if !left.is_empty() {
+                                ctx.violation(case, &format!("removed-document-still-shows:{}", left.join("+")), json!({"doc": t, "trace": trace}));
+                                return;
+                            }
+                        }
+                        Err(e) => ctx.violation(case, "observe-failed", json!({"err": format!("{e:?}")})),
+                    }
+                }
                 _ if present[t] => {
                     let n = rng.range(1, 4);
                     fill(&mut rng, &mut store, &docs[t], n);
